@@ -221,6 +221,12 @@ def main():
         print('ANALYSIS-BROKEN property=%s: the rules did not behave as required on %d variant(s): %s' % (
             prop, len(sweep_bad), '; '.join('%s expected %s got %s' % (n_, e_, g_) for (n_, e_, g_, i_) in sweep_bad)))
         return 2
+    unrec = [o for c in ctxs for o in c.obligations if o['status'] == 'unrecognised']
+    if unrec:
+        for o in unrec[:6]:
+            print('%s: rule %s: instance %s: NOT RECOGNISED: %s' % (o['where'], o['rule'], o['instance'], o['detail']))
+        print('ANALYSIS-BROKEN property=%s: %d rule instance(s) could not be decided on this form of the code (no verdict)' % (prop, len(unrec)))
+        return 2
     broken = [getattr(c, 'broken', None) for c in ctxs if getattr(c, 'broken', None)]
     if broken:
         print('ANALYSIS-BROKEN property=%s: %s' % (prop, broken[0]))
